@@ -369,6 +369,8 @@ func generate(r *hx.Rng) []cs {
 		for _, pt := range []string{"rs.remove.after", "rs.copy.after"} {
 			cases = append(cases, cs{id: next(), kind: "CR", f: []string{e, pt, "64", sd()}})
 		}
+		// a transfer whose copy command fails midway while the process lives on
+		cases = append(cases, cs{id: next(), kind: "FF", f: []string{e, fmt.Sprint(600 + r.Pick(1500)), sd()}})
 		// kills at arbitrary moments of the copy / the file replacement / the transfer
 		for k := 0; k < *nCrash; k++ {
 			cases = append(cases, cs{id: next(), kind: "CB", f: []string{e, fmt.Sprintf("t%d", r.Pick(30000)), "16000", sd()}})
@@ -561,6 +563,11 @@ func main() {
 			i, _ := strconv.ParseUint(c.f[4], 16, 64)
 			co.Printf("%s\tG\t%s\n", c.id, strings.Join(c.f, "\t"))
 			io.Printf("%s\t%s\n", c.id, implSource(parsePeers(c.f[5]), lid, retry, c.f[2] == "1", t, i))
+		case "FF":
+			kb, _ := strconv.Atoi(c.f[1])
+			sd, _ := strconv.ParseInt(c.f[2], 10, 64)
+			co.Printf("%s\tFF\t%s\t%s\t%s\n", c.id, c.f[0], c.f[1], c.f[2])
+			io.Printf("%s\t%s\n", c.id, failedFetch(c.f[0], kb, sd))
 		case "CB", "CR", "CF":
 			// crash cases: <eng> <point | t<micros>> <fillKB> <seed>
 			kb, _ := strconv.Atoi(c.f[2])
